@@ -20,13 +20,17 @@ LEVEL_TEXT = ("Bounded history contract on the real Pipeline.map / create_learne
               "split_independent_axes) driven in random order within each generation. Proved part (pyvc): "
               "_existing_and_missing_indices - a piece's work list is exactly the increasing list of *selected* "
               "(fixed-mask) indices with some output absent, for all arrays and masks - and "
-              "_is_parameter_reduced_by_function (when a function takes an array whole); building the mask "
+              "_is_parameter_reduced_by_function (when a function takes an array whole), "
+              "_is_parameter_partially_reduced_by_function and _get_partially_reduced_axes (the named axes at the "
+              "positions a function takes through ':' - these may not be fixed), _split_sequence_learner (element-scope "
+              "functions get one learner per *selected flat index*; the SequenceLearner constructor is assumed); "
+              "building the mask "
               "(_mask_fixed_axes: numpy fancy indexing) and the adaptive learners are outside the proof rung, so the "
               "property itself is decided on the bounded rung: 'exploration'.")
 LEVEL_NOTE = ("Bounds: programs of 1..3 functions, rank<=2, axis sizes 1..3, storage file_array / dict. Trusted: "
               "reference denotation (incl. the reference notion of a reduced axis, from the statement), adaptive 1.5.")
 TECHNIQUE = ("bounded history-contract checking of partial runs against the reference denotation; work-list function "
-             "_existing_and_missing_indices discharged by z3")
+             "_existing_and_missing_indices, the reduced-axes helpers and _split_sequence_learner discharged by z3")
 EXPLANATION = LEVEL_TEXT
 RULE = ("program x axis x random partition (ints / slices with steps +-1, +-2) x random order; plus invalid requests "
         "(reduced axis, unknown axis, out of range); distinct = distinct (program, axis, partition, order); "
